@@ -330,7 +330,7 @@ class PipelineCorr(Corr):
     requires = ["Model/Pipeline.vo", "Model/Matching.vo", "Model/Filter.vo", "Model/PassFail.vo", "Model/AP.vo", "Base/CaseUtil.vo"]
     shard = 24
     n_quick = 330
-    n_thorough = 5000
+    n_thorough = 4000
 
     def cases(self, tier, rng):
         import shutil
@@ -372,6 +372,10 @@ class PipelineCorr(Corr):
             "det_center": [] if det is None else [[float(x) for x in l] for l in det.center_distance_thresholds],
             "det_plane": [] if det is None else [[float(x) for x in l] for l in det.plane_distance_thresholds],
             "n_in": [len(ests), len(gts)],
+            # the manager-level filter that precedes the matcher (C10's model must select the same objects)
+            "pre": {"cfg": cfg_from_params(ec.filtering_params), "est_all": [object_facts(o, fgt.transforms) for o in ests],
+                    "gt_all": [object_facts(o, fgt.transforms) for o in gts],
+                    "kept_est": [i for i, o in enumerate(ests) if id(o) in ei], "kept_gt": [i for i, o in enumerate(gts) if id(o) in gi]},
         }
         matched = get_object_results(ec.evaluation_task, list(fe), list(fg), manager.target_labels, policy,
                                      matchable_thresholds=radii, transforms=fgt.transforms)
@@ -408,7 +412,11 @@ class PipelineCorr(Corr):
             return "false"
         lets, _ = self._lets(obs)
         f = obs["facts"]
-        return (f"({lets}check_scene_facts F {llit([blit(b) for b in f['est_unknown']])} {llit([blit(b) for b in f['gt_fp']])} "
+        pre = obs["pre"]
+        pre_cfg = cfg_lit(pre["cfg"])
+        pre_term = (f"check_filter_objects {pre_cfg} true false {llit([obj_lit(i, o) for i, o in enumerate(pre['est_all'])])} (Ok {nat_l(pre['kept_est'])}) && "
+                    f"check_filter_objects {pre_cfg} true true {llit([obj_lit(i, o) for i, o in enumerate(pre['gt_all'])])} (Ok {nat_l(pre['kept_gt'])})")
+        return (f"({pre_term} && {lets}check_scene_facts F {llit([blit(b) for b in f['est_unknown']])} {llit([blit(b) for b in f['gt_fp']])} "
                 f"{llit([olit(t, qlit) for t in f['gt_thr']])} && keys_distinct gts && "
                 f"check_pipeline CENTERDISTANCE P_{case['policy']} {blit(case['fpv'])} F T ests gts crit pf det {o})")
 
